@@ -1102,6 +1102,22 @@ impl<'a> FnTr<'a> {
                 }
             }
         }
+        if segs.len() == 2 && segs[1] == "into" && int_ty(&segs[0]).is_some() {
+            // `u8::into(x)` with a user type as target: `impl From<u8> for T`
+            if let Some(Ty::Named(t)) = &expect {
+                let key = format!("{}::into_{}", segs[0], t);
+                if let Some(sig) = self.reg.fns.get(&key).cloned() {
+                    let (a, _) = self.ex(&c.args[0], env, st, Some(Ty::Int(int_ty(&segs[0]).unwrap())))?;
+                    let term = format!("{} {}", sig.lean, paren(&a));
+                    return if sig.fallible { Ok((self.act(st, term), sig.ret.clone())) } else { Ok((format!("({})", term), sig.ret.clone())) };
+                }
+            }
+            if let Some(Ty::Int(_)) = &expect {
+                let (a, _) = self.ex(&c.args[0], env, st, None)?;
+                return Ok((a, expect.unwrap()));
+            }
+            return Err(format!("`{}::into` with unknown target {:?}", segs[0], expect));
+        }
         if segs.len() >= 2 && (segs[segs.len() - 1] == "min" || segs[segs.len() - 1] == "max") && segs[segs.len() - 2] == "cmp" {
             let (a, ta) = self.ex(&c.args[0], env, st, expect.clone())?;
             let (b, tb) = self.ex(&c.args[1], env, st, Some(ta.clone()))?;
